@@ -197,7 +197,13 @@ func c17(e *Env) {
 				continue
 			}
 			k, v := u.key, u.val
-			if strings.Contains(k.String(), "subStreamIPs") {
+			plainAlt := false
+			for _, alt := range k.DeepAlts(8) {
+				if !strings.Contains(alt.String(), "subStreamIPs") {
+					plainAlt = true
+				}
+			}
+			if !plainAlt {
 				continue
 			}
 			found = true
